@@ -81,9 +81,8 @@ Comb == /\ Ev /\ Trace[l].op = "Combine"
                o2 == IF y.n = 0 THEN x ELSE IF x.n = 0 THEN y ELSE
                      [n |-> x.n + y.n, S |-> SAdd(x.S, y.S), Q |-> SAdd(x.Q, y.Q),
                       mn |-> SMin(x.mn, y.mn), mx |-> SMax(x.mx, y.mx)]
-           IN /\ a # b
-              /\ st' = [st EXCEPT ![a] = o2]
-              /\ Trace[l].barg = 1            \* the argument accumulator is left alone
+           IN /\ st' = [st EXCEPT ![a] = o2]       \* (a = b, an accumulator combined with itself: the same formula doubles it)
+              /\ (a # b) => Trace[l].barg = 1            \* the argument accumulator is left alone
               /\ Check(o2, Trace[l]) /\ Report(o2, Trace[l])
 \* the driver replaces an accumulator by a fresh one (zero value)
 Clear == /\ Ev /\ Trace[l].op = "Clear" /\ st' = [st EXCEPT ![Trace[l].a] = Zero]
